@@ -1,6 +1,12 @@
 import BSModel.Proofs.Render
 import BSModel.Proofs.Reparse
+import BSModel.Proofs.ReparseIdem
+import BSModel.Proofs.ReparseLaws
+import BSModel.Proofs.ReparseRepr
+import BSModel.Proofs.ReparseGrow
 import BSModel.Gen.Render
+import BSModel.Props.C09
+import BSModel.Proofs.RenderEnt
 /-! # C05 — serialising and re-parsing gives the same tree back
 
 Property theorems only. `decodeImpl`/`eventStream`/`piece`/`formatTag`/`outputReady`/`substitute` mirror
@@ -11,7 +17,7 @@ per case by the harness, not modelled), `normaliseL` the documented normal form 
 The tables (`liveClsInfo`, `htmlRegistry`, `xmlRegistry`, `livePCfg`) are generated from the live objects on
 every run. -/
 namespace BS.Props.C05
-open BS.Render BS.Gen.Render
+open BS.Render BS.Gen.C05
 
 /-- the formatter object a registry entry describes, given the function its code stands for -/
 def mkFmt (g : Nat → Option (PStr → PStr)) (s : FmtSpec) : Fmt := ⟨g s.substKind, s.voidPrefix, s.cdataTags, s.emptyBool⟩
@@ -31,17 +37,35 @@ def demo : Node :=
 
 /-! ## 1. the stack machine over the element chain is the structural recursion -/
 
-/-- Refinement, for every tree, formatter and class table: `decode()` — the explicit tag stack of `_event_stream`
-    over the pre-order chain of elements, closing tags while the next element's parent is not the stack top, each
-    event formatted by `_format_tag`/`output_ready` and the pieces joined — produces exactly the text the obvious
-    recursion over the tree produces. Every start tag is closed exactly once, after its last descendant. -/
+/-- **`_event_stream` is the structural recursion**, for every tree: the explicit tag stack over the pre-order chain
+    of elements — popping and yielding END while the next element's parent is not the stack top, EMPTY for a
+    childless tag that can be empty, START + push for any other tag, STRING for a string, and the final unwinding —
+    yields exactly `specEvents`: per node `EMPTY`, or `START`, the children's events in order, `END`. Every start tag
+    is closed exactly once, after its last descendant and before its next sibling. -/
+theorem event_stream_eq_spec (n : Node) : eventStream (flatten none none 0 n) = specEvents none none 0 n :=
+  eventStream_flatten n none none 0 (by simp)
+
+example : (eventStream (flatten none none 0 demo)).map (fun e => (e.1, e.2.id)) =
+    [(.start, 0), (.empty, 1), (.string, 2), (.string, 3), (.start, 4), (.string, 5), (.stop, 4), (.start, 6), (.stop, 6),
+     (.stop, 0)] := by decide
+
+/-- Refinement, for every tree, formatter and class table: `decode()` — the event stream above, each event formatted
+    by `_format_tag`/`output_ready` and the pieces joined — produces exactly the text the obvious recursion over the
+    tree produces. -/
 theorem decode_eq_render (ci : SCls → ClsInfo) (f : Fmt) (n : Node) :
     decodeNode ci f n = renderSpec ci f none n := by
-  obtain ⟨S, acc, h1, h2, _⟩ := fold_node ci f n none none 0 [] [] [] (by simp) trivial (by simp)
-  simp only [decodeNode, decodeImpl, eventStream]
-  simp only [List.append_nil] at h1
-  rw [h1, h2]
-  simp [closes, pieces]
+  simp only [decodeNode, decodeImpl, event_stream_eq_spec, pieces_specEvents]
+
+/-- The start element may sit anywhere: with any parent identity outside its own block (`par`, numbered below the
+    block) and any parent name, the loop over `self_and_descendants` renders the element alone — the parent is never
+    consulted because the stack is empty when the first element arrives. -/
+theorem decode_any_start (ci : SCls → ClsInfo) (f : Fmt) (n : Node) (par : Option Nat) (pname : Option PStr) (k : Nat)
+    (hk : ∀ q, par = some q → q < k) :
+    decodeImpl ci f (flatten par pname k n) = renderSpec ci f pname n := by
+  simp only [decodeImpl, eventStream_flatten n par pname k hk, pieces_specEvents]
+
+example : decodeImpl liveClsInfo minimalHtml (flatten (some 3) (some (ofS "script")) 7 (.tag (tg "b") [.str .navigable (ofS "<")])) =
+    ofS "<b>&lt;</b>" := by decide
 
 example : decodeNode liveClsInfo minimalHtml demo =
     ofS "<div class=\"a b\" id='x\"'><br/>a&lt;b<!--c--><script>1<2</script><p></p></div>" := by decide
@@ -50,12 +74,8 @@ example : decodeNode liveClsInfo minimalHtml demo =
     never on the stack): the renderings of the children, concatenated. -/
 theorem decode_contents_eq (ci : SCls → ClsInfo) (f : Fmt) (i : TagInfo) (kids : List Node) :
     decodeContents ci f (.tag i kids) = renderL ci f (some i.name) kids := by
-  obtain ⟨S, acc, h1, h2, _⟩ := fold_forest ci f kids (some 0) (some i.name) 1 [] [] [] (by simp) trivial
-    (by intro q hq; cases hq; omega)
-  simp only [decodeContents, decodeImpl, eventStream, flatten, List.tail_cons]
-  simp only [List.append_nil] at h1
-  rw [h1, h2]
-  simp [closes, pieces]
+  simp only [decodeContents, decodeImpl, flatten, List.tail_cons]
+  rw [eventStream_flattenL kids (some 0) (some i.name) 1 (by intro q hq; cases hq; omega), pieces_specEventsL]
 
 example : decodeContents liveClsInfo minimalHtml (.tag (tg "p") [.str .navigable (ofS "&"), .tag (tg "b") []]) =
     ofS "&amp;<b></b>" := by decide
@@ -73,6 +93,31 @@ theorem never_empty_with_children (ci : SCls → ClsInfo) (f : Fmt) (i : TagInfo
   rw [decode_eq_render]
   have : kids.isEmpty = false := by cases kids <;> simp_all
   simp [renderSpec, this, formatTag, hh]
+
+/-- **For every element of every tree**: in the event stream of the whole tree an `EMPTY_ELEMENT` event — the only
+    event whose piece carries the formatter's void prefix — is yielded only for an element with no contents whose
+    `can_be_empty_element` is true; every other tag gets `START` and `END`, every string `STRING`. -/
+theorem events_classified (t : Node) : ∀ e ∈ eventStream (flatten none none 0 t), evOK e = true := by
+  rw [event_stream_eq_spec]
+  exact specEvents_ok t none none 0
+
+/-- … hence, whatever the depth: the piece `decode()` of the whole tree emits for a tag with at least one child is
+    `_format_tag` *without* the void slash — `<prefix:name attrs>` for START, `</prefix:name>` for END. -/
+theorem never_empty_everywhere (ci : SCls → ClsInfo) (f : Fmt) (t : Node) (e : Ev) (c : Item) (i : TagInfo) (nk : Nat)
+    (he : (e, c) ∈ eventStream (flatten none none 0 t)) (hc : c.pl = .tag i nk) (hk : nk ≠ 0) :
+    (e = .start ∨ e = .stop) ∧ piece ci f (e, c) = formatTag f i false (e == .start) := by
+  have h := events_classified t (e, c) he
+  have hnk : (nk == 0) = false := by simpa using hk
+  cases e with
+  | start => exact ⟨Or.inl rfl, by simp [piece, hc, Payload.isEmptyElement, hnk]⟩
+  | stop => exact ⟨Or.inr rfl, by simp [piece, hc, Payload.isEmptyElement, hnk]; rfl⟩
+  | empty => simp [evOK, hc, hnk] at h
+  | string => simp [evOK, hc] at h
+
+example : ∀ e ∈ eventStream (flatten none none 0 demo), evOK e = true := events_classified demo
+/-- the `<script>` element of `demo` (item 4, one child): START and END pieces without a void slash -/
+example : ((eventStream (flatten none none 0 demo)).map fun e => (e.1, e.2.id, e.2.pl.isEmptyElement)).contains (.start, 4, false) = true ∧
+    piece liveClsInfo minimalHtml (Ev.stop, (⟨4, some 0, .tag (tg "script") 1⟩ : Item)) = ofS "</script>" := by decide
 
 /-- the complementary case, for reference: a childless element is `<x/>` (with the formatter's prefix) exactly when
     `can_be_empty_element` is true, else `<x></x>` -/
@@ -94,9 +139,20 @@ example : decodeNode liveClsInfo minimalHtml (.tag (tg "br" [] false) []) = ofS 
     PREFIX and SUFFIX of its class) — for every substitution function. -/
 theorem cdata_verbatim (ci : SCls → ClsInfo) (f : Fmt) (pn : PStr) (c : SCls) (s : PStr)
     (h : f.cdataTags.contains pn = true) :
-    outputReady ci f (some pn) c s = (ci c).pre ++ s ++ (ci c).suf := by
-  simp only [outputReady, substitute, h]
-  cases (ci c).preformatted <;> cases f.subst <;> simp
+    outputReady ci f (some pn) c s = (ci c).pre ++ s ++ (ci c).suf :=
+  outputReady_cdata ci f pn c s h
+
+/-- **For every cdata-containing element of every tree, with any children**: its contents are rendered as the
+    concatenation of its children where every string child — whatever its class, whatever the substitution function —
+    is emitted verbatim between its class' PREFIX and SUFFIX (element children render as usual). -/
+theorem cdata_verbatim_children (ci : SCls → ClsInfo) (f : Fmt) (i : TagInfo) (kids : List Node)
+    (h : f.cdataTags.contains i.name = true) :
+    decodeContents ci f (.tag i kids) = kids.flatMap (rawKid ci f i.name) := by
+  rw [decode_contents_eq, renderL_cdata ci f i.name h]
+
+example : decodeContents liveClsInfo minimalHtml
+    (.tag (tg "style") [.str .stylesheet (ofS "a>b{"), .str .navigable (ofS "&}"), .str .comment (ofS "<c>")]) =
+    ofS "a>b{&}<!--<c>-->" := by decide
 
 /-- every formatter of the live HTML registry (`None`, 'minimal', 'html', 'html5', 'html5-4.12') treats exactly
     `script` and `style` as cdata-containing; every XML one treats no tag so -/
@@ -141,11 +197,11 @@ theorem void_prefix_slash :
     outside `[a-z][-.a-z0-9:_]*` and attribute names outside `[a-z_:][-.a-z0-9:_]*` (the tokenizer lower-cases
     and delimits names), duplicate attribute keys, hidden elements below the root, elements whose name is void for
     the re-parsing builder but which have children, elements (or comments, …) inside script/style, `</` in
-    script/style text, elements for which the writer's and the reader's notion of raw content differ (a prefixed
+    what is written between `<script>`/`<style>` and its end tag (the concatenation of the strings), elements for which the writer's and the reader's notion of raw content differ (a prefixed
     `x:script`; `script`/`style` under an XML formatter), empty text strings, bare `PreformattedString`s, `--`/a
     trailing `-`/a leading `>` or `->` in comments, `]` or `>` in CDATA sections, `>` in processing instructions,
     declarations and doctypes. -/
-abbrev Representable (p : PCfg) (f : Fmt) (ds : List Node) : Prop := representableL p f false ds = true
+abbrev Representable (p : PCfg) (f : Fmt) (ds : List Node) : Prop := representableL p f ds = true
 
 instance (p : PCfg) (f : Fmt) (ds : List Node) : Decidable (Representable p f ds) := by
   unfold Representable; infer_instance
@@ -160,7 +216,7 @@ instance (p : PCfg) (f : Fmt) (ds : List Node) : Decidable (Representable p f ds
     interplay of `already_closed_empty_element` is never triggered by rendered output. -/
 theorem reparse_roundtrip (p : PCfg) (f : Fmt) (ds : List Node) (h : Representable p f ds) :
     build p (emitRL f ds) = normaliseL p f ds := by
-  have hv := representableL_voidOkL p f false ds h
+  have hv := representableL_voidOkL p f ds h
   simp only [build]
   rw [run_forest p f ds _ [] [] hv]
   simp [flush_eq, closeAll, closeAllAux, normaliseL, ctxOf, rootFrame]
@@ -219,21 +275,8 @@ example : let ds := [demo]
     normaliseL livePCfg minimalHtml (normaliseL livePCfg minimalHtml ds) = normaliseL livePCfg minimalHtml ds := by decide
 
 /-- "whitespace-only runs normalise once": the whitespace rule of `endData` is idempotent, for every configuration -/
-theorem wsRule_idem (p : PCfg) (pres : Bool) (s : PStr) : wsRule p pres (wsRule p pres s) = wsRule p pres s := by
-  have h1 : wsRule p pres [10] = [10] := by
-    unfold wsRule; cases pres <;> simp
-  have h2 : wsRule p pres [32] = [32] := by
-    unfold wsRule; cases pres <;> simp
-  by_cases hc : (!pres && s.all fun c => p.asciiSpaces.contains c) = true
-  · have hs : wsRule p pres s = if s.contains 10 then [10] else [32] := by
-      unfold wsRule; rw [if_pos hc]
-    rw [hs]
-    split
-    · exact h1
-    · exact h2
-  · have hs : wsRule p pres s = s := by
-      unfold wsRule; rw [if_neg hc]
-    rw [hs, hs]
+theorem wsRule_idem (p : PCfg) (pres : Bool) (s : PStr) : wsRule p pres (wsRule p pres s) = wsRule p pres s :=
+  BS.Render.wsRule_idem p pres s
 
 example : wsRule livePCfg false (ofS " \t\n ") = ofS "\n" ∧ wsRule livePCfg true (ofS " \t\n ") = ofS " \t\n " ∧
     wsRule livePCfg false [] = ofS " " := by decide
@@ -251,10 +294,374 @@ theorem txt_chunking (p : PCfg) (ctx : Ctx) (b : List PStr) (x y : PStr) :
   | nil => simp [txt, concatL]
   | cons a b => simp only [List.cons_append, txt]; have := hc (a :: b); simp only [List.cons_append] at this; rw [this]
 
-/-! Stated, not proved (`normalise_idem`): for every forest without a `Doctype` node, for every configuration whose
-    string containers are text classes, `normaliseL p f (normaliseL p f ds) = normaliseL p f ds`
-    (needs: the normal form has no two adjacent text nodes; `wsRule_idem`; `sortAttrs` is idempotent;
-    `splitWs (joinSp (splitWs v)) = splitWs v`). With a `Doctype` it is false (`doctype_text_not_fixpoint`).
-    The executable statement is evaluated on every case of the correspondence run instead. -/
+/-! ## 6. idempotence of the normal form -/
+
+/-- `DoctypeStable`: no doctype of the forest is followed by text that is not ASCII whitespace, and none stands inside
+    a preserve-whitespace element (`<pre>`, `<textarea>`) — exactly the inputs outside known finding
+    `C05-doctype-newline-accumulates` (`normalise_idem_iff`). Explicit and decidable (`dstableL`, Proofs/ReparseIdem.lean). -/
+abbrev DoctypeStable (p : PCfg) (ds : List Node) : Prop := dstableL p (ctxOf p [rootFrame]) false ds = true
+
+/-- the hypotheses on the builder configuration: string containers are text classes, the newline is in ASCII_SPACES,
+    the space is a `\\s` character — all true of the live configuration (`live_config_ok`) -/
+abbrev ConfigOK (p : PCfg) : Prop :=
+  contOK p = true ∧ p.asciiSpaces.contains 10 = true ∧ p.reSpace.contains 32 = true
+
+theorem live_config_ok : ConfigOK livePCfg := by decide
+
+/-- The attribute part, for **every** attribute list (duplicate keys, `None`, list values, any order), tag name and
+    formatter: sorted by key, folded as a dict, `None` → `""`, multi-valued ones split — and doing it again changes
+    nothing (`sortAttrs` leaves strictly sorted keys alone; distinct keys are not folded;
+    `findall(" ".join(findall(v))) = findall(v)`). -/
+theorem normAttrs_idem (p : PCfg) (h32 : p.reSpace.contains 32 = true) (f : Fmt) (nm : PStr) (a : List (PStr × AVal)) :
+    normAttrs p f nm (normAttrs p f nm a) = normAttrs p f nm a :=
+  BS.Render.normAttrs_idem p h32 f nm a
+
+example : normAttrs livePCfg minimalHtml (ofS "a")
+    [(ofS "rel", .str (ofS " x  y ")), (ofS "id", .none), (ofS "class", .list [ofS "p q", ofS "r"]), (ofS "id", .str (ofS "z"))] =
+    [(ofS "class", .list [ofS "p", ofS "q", ofS "r"]), (ofS "id", .str []), (ofS "rel", .list [ofS "x", ofS "y"])] := by decide
+
+/-- **A second round trip changes nothing.** For every forest — representable or not —, every formatter and every
+    builder configuration satisfying `ConfigOK`: if the forest is `DoctypeStable`, the documented normal form is a
+    fixpoint of the normalisation. Proof: the second normalisation is run in lockstep with the first (`reabsorbL`):
+    the text node the first pass flushes is taken up unchanged by the second, special strings and elements are re-read
+    as themselves (attributes by `normAttrs_idem`), and the newline a doctype leaves behind meets exactly the `"\n"`
+    it produced the first time. Without `DoctypeStable` the statement is false (`doctype_text_not_fixpoint`): that
+    hypothesis is the exact shape of known finding `C05-doctype-newline-accumulates`, not a gap of the proof. -/
+theorem normalise_idem (p : PCfg) (f : Fmt) (hp : ConfigOK p) (ds : List Node) (hs : DoctypeStable p ds) :
+    normaliseL p f (normaliseL p f ds) = normaliseL p f ds :=
+  normaliseL_idem_all p f hp.1 hp.2.1 hp.2.2 ds hs
+
+/-- **… and only then.** For every forest that is *not* `DoctypeStable` the second normalisation differs from the
+    first: the total length of the character data grows by exactly the number of doctypes whose newline is not
+    absorbed (`tlen_second`, the lockstep of `normalise_idem` run as a count), and an unstable forest has at least one
+    (`grow_unstable`). -/
+theorem normalise_not_idem (p : PCfg) (f : Fmt) (hp : ConfigOK p) (ds : List Node) (hs : ¬ DoctypeStable p ds) :
+    normaliseL p f (normaliseL p f ds) ≠ normaliseL p f ds :=
+  normaliseL_not_idem p f hp.1 hp.2.1 ds (by simpa using hs)
+
+/-- **Complete characterisation of "a second round trip changes nothing"**: for every forest of the model, every
+    formatter and every configuration satisfying `ConfigOK` (the live one does), the documented normal form is a
+    fixpoint **iff** the forest is `DoctypeStable` — the explicit decidable predicate "no doctype is followed by visible
+    text or stands inside `<pre>`/`<textarea>`". What lies outside is exactly known finding
+    `C05-doctype-newline-accumulates`. -/
+theorem normalise_idem_iff (p : PCfg) (f : Fmt) (hp : ConfigOK p) (ds : List Node) :
+    normaliseL p f (normaliseL p f ds) = normaliseL p f ds ↔ DoctypeStable p ds := by
+  constructor
+  · intro h
+    cases hd : dstableL p (ctxOf p [rootFrame]) false ds with
+    | true => exact hd
+    | false => exact absurd h (normaliseL_not_idem p f hp.1 hp.2.1 ds hd)
+  · exact normalise_idem p f hp ds
+
+/-- the length of the character data after the second normalisation, exactly -/
+theorem second_normalisation_growth (p : PCfg) (f : Fmt) (hp : ConfigOK p) (ds : List Node) :
+    tlenL (normaliseL p f (normaliseL p f ds)) = tlenL (normaliseL p f ds) + grow p (ctxOf p [rootFrame]) ds :=
+  tlen_second p f hp.1 hp.2.1 ds
+
+example : grow livePCfg (ctxOf livePCfg [rootFrame])
+    [.str .doctype (ofS "html"), .str .navigable (ofS "x"), .tag (tg "pre") [.str .doctype (ofS "y")], .str .doctype (ofS "z")] = 2 := by
+  decide
+
+/-- in particular: every forest without a doctype, under the live configuration and any formatter -/
+theorem normalise_idem_live_no_doctype (f : Fmt) (ds : List Node) (h : DoctypeStable livePCfg ds) :
+    normaliseL livePCfg f (normaliseL livePCfg f ds) = normaliseL livePCfg f ds :=
+  normalise_idem livePCfg f live_config_ok ds h
+
+/-- doctype followed by whitespace and an element, text to merge, a `<pre>`, special strings, multi-valued attribute -/
+def demo2 : List Node :=
+  [.str .doctype (ofS "html"), .str .navigable (ofS " "), .str .navigable (ofS "\t"),
+   .tag (tg "p" [(ofS "class", .str (ofS " a  b ")), (ofS "k", .none)])
+     [.str .navigable (ofS "a"), .str .navigable (ofS "b"), .tag (tg "rt") [.str .navigable (ofS "r")],
+      .tag (tg "pre") [.str .navigable (ofS " \n ")], .str .comment (ofS " "), .str .navigable (ofS " ")],
+   .str .xmlpi (ofS "x y"), .str .declaration (ofS "if IE")]
+
+example : DoctypeStable livePCfg demo2 ∧ Representable livePCfg minimalHtml demo2 := by decide
+example : normaliseL livePCfg minimalHtml (normaliseL livePCfg minimalHtml demo2) = normaliseL livePCfg minimalHtml demo2 :=
+  normalise_idem _ _ live_config_ok _ (by decide)
+/-- the witness of the refutation is excluded by `DoctypeStable` -/
+example : ¬ DoctypeStable livePCfg [.str .doctype (ofS "html"), .str .navigable (ofS "x")] := by decide
+
+/-- **Parse-then-render is idempotent**, at the event level: for every representable, doctype-stable forest whose
+    normal form is representable again, the second re-parse builds the same forest as the first. -/
+theorem second_roundtrip_fixpoint (p : PCfg) (f : Fmt) (hp : ConfigOK p)
+    (ds : List Node) (h : Representable p f ds) (h2 : Representable p f (normaliseL p f ds))
+    (hs : DoctypeStable p ds) :
+    build p (emitRL f (build p (emitRL f ds))) = build p (emitRL f ds) :=
+  (second_roundtrip_fixpoint_iff p f ds h h2).mpr (normalise_idem p f hp ds hs)
+
+example : Representable livePCfg minimalHtml (normaliseL livePCfg minimalHtml demo2) := by decide
+
+/-- The normal form of a representable forest is representable again — for every configuration whose string
+    containers are text classes and every formatter that agrees with the re-parser on the raw-content elements or has
+    none (`CdataAgree`; true of every formatter of both live registries: `registry_cdata_agree`). -/
+theorem representable_normal_form (p : PCfg) (f : Fmt) (hc : contOK p = true) (hcd : CdataAgree p f) (ds : List Node)
+    (h : Representable p f ds) : Representable p f (normaliseL p f ds) :=
+  representable_normalise p f hc hcd ds h
+
+theorem registry_cdata_agree :
+    ∀ x, (∀ e ∈ registryOf x, e.2.cdataTags = livePCfg.cdataElems ∨ e.2.cdataTags = []) ∧
+      ((ctorDefaults x).cdataTags = livePCfg.cdataElems ∨ (ctorDefaults x).cdataTags = []) := by decide
+
+/-- **Parse-then-render is idempotent** (event level), with no hypothesis about the intermediate tree: for every
+    representable, doctype-stable forest the second re-parse builds the same forest as the first — hence its rendering,
+    a function of the forest, is the same text. -/
+theorem parse_render_idempotent (p : PCfg) (f : Fmt) (hp : ConfigOK p) (hcd : CdataAgree p f) (ds : List Node)
+    (h : Representable p f ds) (hs : DoctypeStable p ds) :
+    build p (emitRL f (build p (emitRL f ds))) = build p (emitRL f ds) :=
+  second_roundtrip_fixpoint p f hp ds h (representable_normal_form p f hp.1 hcd ds h) hs
+
+example : CdataAgree livePCfg minimalHtml ∧ CdataAgree livePCfg minimalXml := ⟨Or.inl (by decide), Or.inr rfl⟩
+example : build livePCfg (emitRL minimalHtml (build livePCfg (emitRL minimalHtml demo2))) = build livePCfg (emitRL minimalHtml demo2) :=
+  parse_render_idempotent _ _ live_config_ok (Or.inl (by decide)) _ (by decide) (by decide)
+
+/-! ## 7. which formatter `decode` uses; the XML flavour -/
+
+/-- the live environment of `formatter_for_name`: both registries, the constructor defaults for a callable, and the
+    registered substitution functions (`substitute_xml` from this model, `substitute_html`/`substitute_html5` from
+    C09's model over the generated entity tables) -/
+def liveEnv : FmtEnv :=
+  ⟨registryOf, ctorDefaults,
+   fun k => if k = 0 then none else if k = 1 then some substXml
+            else if k = 2 then some (BS.Entities.substHtml BS.Gen.C09.htmlTable)
+            else some (BS.Entities.substHtml5 BS.Gen.C09.htmlTable)⟩
+
+/-- `_is_xml` walks up the parent chain to the first `known_xml` that is not `None`; a root without one answers with
+    its `is_xml` attribute (default False) -/
+theorem isXml_eq_spec (r : Bool) (chain : List (Option Bool)) : isXmlImpl r chain = isXmlSpec r chain := by
+  induction chain with
+  | nil => rfl
+  | cons a as ih =>
+    cases a with
+    | none => simpa [isXmlImpl, isXmlSpec, List.find?] using ih
+    | some b => simp [isXmlImpl, isXmlSpec, List.find?]
+
+example : isXmlImpl false [none, none, some true, some false] = true ∧ isXmlImpl true [none, none] = true ∧
+    isXmlImpl true [some false, some true] = false := by decide
+
+/-- Whole-registry facts, both flavours (`x` = `_is_xml`): 'minimal' is `substitute_xml`, 'html' is
+    `substitute_html`, both write `<x/>` and keep `""` attribute values; HTML formatters treat script/style as
+    cdata-containing, XML formatters no tag; 'html5' and 'html5-4.12' exist for HTML only. -/
+theorem registry_lookup_live :
+    (∀ x, lookupReg (registryOf x) (some (ofS "minimal")) = some ⟨1, [47], if x then [] else htmlCdataTags, false⟩) ∧
+    (∀ x, lookupReg (registryOf x) (some (ofS "html")) = some ⟨2, [47], if x then [] else htmlCdataTags, false⟩) ∧
+    (∀ x, lookupReg (registryOf x) none = some ⟨0, [47], if x then [] else htmlCdataTags, false⟩) ∧
+    lookupReg (registryOf false) (some (ofS "html5")) = some ⟨3, [], htmlCdataTags, true⟩ ∧
+    lookupReg (registryOf true) (some (ofS "html5")) = none ∧
+    (∀ x, (ctorDefaults x).voidPrefix = [47] ∧ (ctorDefaults x).emptyBool = false ∧
+          (ctorDefaults x).cdataTags = if x then [] else htmlCdataTags) := by decide
+
+/-- A callable becomes the substitution function of a fresh formatter of the element's flavour, with that flavour's
+    defaults. -/
+theorem formatter_for_callable (x : Bool) (g : PStr → PStr) :
+    ∃ f, formatterForName liveEnv x (.fn g) = .ok f ∧ f.voidPrefix = [47] ∧ f.emptyBool = false ∧
+      f.cdataTags = (if x then [] else htmlCdataTags) ∧ ∃ g', f.subst = some g' ∧ ∀ s, g' s = g s := by
+  cases x <;> exact ⟨_, rfl, rfl, rfl, rfl, g, rfl, fun _ => rfl⟩
+
+/-- An unknown registry key — 'html5' on an XML-flavoured element, for one — is a `KeyError`, not a silent default. -/
+theorem decode_keyerror (ci : SCls → ClsInfo) (r : Bool) (chain : List (Option Bool)) (k : Option PStr) (n : Node)
+    (h : lookupReg (liveEnv.registry (isXmlImpl r chain)) k = none) :
+    decodeTop ci liveEnv r chain (.name k) n = none := by
+  simp [decodeTop, formatterForName, h]
+
+example : decodeTop liveClsInfo liveEnv false [some true] (.name (some (ofS "html5"))) demo = none := by decide
+example : decodeTop liveClsInfo liveEnv false [none, some true] (.name (some (ofS "minimal")))
+    (.tag (tg "script" [] true) []) = some (ofS "<script/>") := by decide
+
+/-- `str(el)` / `repr(el)` = `decode()` with the default key 'minimal': it exists in both registries, so `str()` never
+    raises, whatever the flavour the parent chain decides -/
+theorem str_never_keyerror (ci : SCls → ClsInfo) (r : Bool) (chain : List (Option Bool)) (n : Node) :
+    (decodeTop ci liveEnv r chain (.name (some (ofS "minimal"))) n).isSome = true := by
+  have := registry_lookup_live.1 (isXmlImpl r chain)
+  simp only [decodeTop, formatterForName, liveEnv] at this ⊢
+  rw [this]; rfl
+
+/-- `decode(formatter=…)` end to end: the resolved formatter, then the structural rendering. -/
+theorem decodeTop_eq (ci : SCls → ClsInfo) (e : FmtEnv) (r : Bool) (chain : List (Option Bool)) (a : FmtArg) (n : Node) :
+    decodeTop ci e r chain a n =
+      match formatterForName e (isXmlSpec r chain) a with
+      | .ok f => some (renderSpec ci f none n)
+      | .keyError => none := by
+  simp only [decodeTop, isXml_eq_spec]
+  cases formatterForName e (isXmlSpec r chain) a <;> simp [decode_eq_render]
+
+/-- **XML flavour**: a formatter without cdata-containing tags — every formatter of the XML registry and every
+    callable on an XML-flavoured element (`registry_lookup_live`, `registry_cdata_tags`) — substitutes every string of
+    a text class wherever it stands, `script`/`style` included. -/
+theorem xml_substitutes_everywhere (ci : SCls → ClsInfo) (f : Fmt) (g : PStr → PStr) (hf : f.subst = some g)
+    (hc : f.cdataTags = []) (pn : Option PStr) (c : SCls) (s : PStr) (hp : (ci c).preformatted = false) :
+    outputReady ci f pn c s = (ci c).pre ++ g s ++ (ci c).suf := by
+  cases pn <;> simp [outputReady, substitute, hf, hc, hp]
+
+example : decodeTop liveClsInfo liveEnv false [some true] (.name (some (ofS "minimal")))
+    (.tag (tg "script") [.str .navigable (ofS "a<b")]) = some (ofS "<script>a&lt;b</script>") := by decide
+example : outputReady liveClsInfo minimalXml (some (ofS "script")) .navigable (ofS "a<b") = [] ++ substXml (ofS "a<b") ++ [] :=
+  xml_substitutes_everywhere liveClsInfo minimalXml substXml rfl rfl (some (ofS "script")) .navigable (ofS "a<b") rfl
+
+/-! ## 8. the generated class table is the markup the re-parse model presupposes (whole table) -/
+
+/-- For all 13 string classes: `PREFIX`, `SUFFIX` and the kind of `output_ready` of the live class are those `strKind`
+    / `emitStr` are written for — a changed prefix or suffix breaks this obligation by name. -/
+theorem class_table_live : ∀ c, liveClsInfo c = assumedMarkup c := by
+  intro c; cases c <;> decide
+
+/-! ## 9. the round trip through C09's readers: 'minimal' and 'html' at full strength -/
+
+/-- this model's `substitute_xml` and `quoted_attribute_value` are C09's (over the live `CHARACTER_TO_XML_ENTITY`) -/
+theorem subst_quote_are_c09 :
+    (∀ s, substXml s = BS.Entities.substXml BS.Gen.C09.xmlTable s) ∧ (∀ v, quoteAttr v = BS.Entities.quoteAttr v) :=
+  ⟨substXml_eq_c09, quoteAttr_eq_c09⟩
+
+/-- C09's readers: `readText` = html.parser (convert_charrefs=False) + bs4's handle_entityref/handle_charref on tag-free
+    character data; `readAttr` = quote stripping + `html.unescape` — over the generated entity tables -/
+def c09Reader (late : Bool) : Reader :=
+  ⟨BS.Reader.readText BS.Gen.C09.htmlTable late 0, BS.Reader.readAttr BS.Gen.C09.htmlTable⟩
+
+/-- `substitute_xml` is undone by the readers, for every string (C09, over the live tables) -/
+theorem minimal_reader_laws (late : Bool) (vp : PStr) (cd : List PStr) (eb : Bool) :
+    ReaderLaws (c09Reader late) ⟨some substXml, vp, cd, eb⟩ :=
+  ⟨substXml, rfl,
+   fun s => by
+    rw [substXml_eq_c09]
+    exact BS.Props.C09.xml_text_roundtrip _ _ BS.Props.C09.xmlOK_live late s,
+   fun v => by
+    rw [substXml_eq_c09, quoteAttr_eq_c09]
+    exact BS.Props.C09.xml_attr_roundtrip _ _ BS.Props.C09.xmlOK_live BS.Props.C09.tblOK_live v⟩
+
+/-- `substitute_html` is undone by the readers, for every string (C09, over the live tables) -/
+theorem html_reader_laws (late : Bool) (vp : PStr) (cd : List PStr) (eb : Bool) :
+    ReaderLaws (c09Reader late) ⟨some (BS.Entities.substHtml BS.Gen.C09.htmlTable), vp, cd, eb⟩ :=
+  ⟨_, rfl,
+   fun s => BS.Props.C09.html_text_roundtrip _ BS.Props.C09.tblOK_live late s,
+   fun v => by
+    rw [quoteAttr_eq_c09]
+    exact BS.Props.C09.html_attr_roundtrip _ BS.Props.C09.tblOK_live v⟩
+
+/-- Round trip with the written text read back character by character: for every reader and formatter satisfying the
+    reader laws, every configuration and every representable forest, the events the readers produce from what
+    `output_ready` / `_format_tag` wrote are `emitR`, and the machine builds the normal form. -/
+theorem reparse_roundtrip_rd (p : PCfg) (rd : Reader) (f : Fmt) (hl : ReaderLaws rd f) (ds : List Node)
+    (h : Representable p f ds) :
+    build p (emitRdL p rd f none false ds) = normaliseL p f ds := by
+  rw [emitRdL_eq p rd f hl ds none rfl h]
+  exact reparse_roundtrip p f ds h
+
+/-- **'minimal' and 'html', HTML and XML flavour, unconditionally**: whichever of the four registered formatters
+    `formatter_for_name` resolves to, the reader laws hold (C09's theorems over the live entity tables), hence for every
+    representable forest the re-parse of the rendered text — substituted, quoted, read back through the models of the
+    tokenizer's character-data and attribute-value handling — builds the normal form. -/
+theorem reparse_roundtrip_registry (x late : Bool) (k : PStr) (hk : k = ofS "minimal" ∨ k = ofS "html") :
+    ∃ f, formatterForName liveEnv x (.name (some k)) = .ok f ∧ ReaderLaws (c09Reader late) f ∧
+      ∀ ds, Representable livePCfg f ds →
+        build livePCfg (emitRdL livePCfg (c09Reader late) f none false ds) = normaliseL livePCfg f ds := by
+  rcases hk with hk | hk <;> subst hk
+  · refine ⟨⟨some substXml, [47], if x then [] else htmlCdataTags, false⟩, ?_, minimal_reader_laws late _ _ _, ?_⟩
+    · have := registry_lookup_live.1 x
+      simp only [formatterForName, liveEnv] at this ⊢
+      rw [this]; rfl
+    · intro ds h; exact reparse_roundtrip_rd _ _ _ (minimal_reader_laws late _ _ _) ds h
+  · refine ⟨⟨some (BS.Entities.substHtml BS.Gen.C09.htmlTable), [47], if x then [] else htmlCdataTags, false⟩, ?_,
+      html_reader_laws late _ _ _, ?_⟩
+    · have := registry_lookup_live.2.1 x
+      simp only [formatterForName, liveEnv] at this ⊢
+      rw [this]; rfl
+    · intro ds h; exact reparse_roundtrip_rd _ _ _ (html_reader_laws late _ _ _) ds h
+
+/-- the written form really is read back: `a<b` under `<p>`, `1<2` raw under `<script>`, a value with both quotes -/
+example : emitRdL livePCfg (c09Reader false) minimalHtml none false [demo] = emitRL minimalHtml [demo] :=
+  emitRdL_eq _ _ _ (minimal_reader_laws false _ _ _) _ none rfl (by decide)
+
+/-! ## 10. "the same elements, attributes, text and special strings": laws of the normal form
+
+`normaliseL` is defined as what the parser-side machine absorbs; these theorems say what that is, for **every** forest
+(no `Representable` needed). -/
+
+/-- **Same elements**: the normal form has exactly the elements of the forest (under the name `prefix:name` a re-parse
+    reads), in the same nesting and order. -/
+theorem same_elements (p : PCfg) (f : Fmt) (ds : List Node) : skelL (normaliseL p f ds) = skelL ds :=
+  skel_normalise p f ds
+
+/-- **Same attributes**: for the attributes of a dict (distinct keys): the same keys, sorted; each value is the text it
+    was written as (`None` → `""`, a list joined with spaces), split on whitespace again if the attribute is
+    multi-valued for the tag. -/
+theorem same_attributes (p : PCfg) (f : Fmt) (nm : PStr) (a : List (PStr × AVal)) (hn : keysNodup (a.map (·.1)) = true) :
+    normAttrs p f nm a = (sortAttrs a).map (normVal p nm) :=
+  normAttrs_spec p f nm a hn
+
+example : keysNodup ([(ofS "id", AVal.none), (ofS "class", .list [ofS "a b", ofS "c"])].map (·.1)) = true := by decide
+
+/-- **Same text**: every character of the character data that is not ASCII whitespace survives, in document order,
+    across the whole forest — what the normalisation may change is whitespace only (whitespace-only runs collapse,
+    a newline appears after a doctype), and which runs are one string (adjacent runs merge: `txt_chunking`). -/
+theorem same_text (p : PCfg) (f : Fmt) (hp : contOK p = true ∧ p.asciiSpaces.contains 10 = true ∧ p.asciiSpaces.contains 32 = true)
+    (ds : List Node) : inkL p (normaliseL p f ds) = inkL p ds :=
+  ink_normalise p f hp.1 hp.2.1 hp.2.2 ds
+
+example : contOK livePCfg = true ∧ livePCfg.asciiSpaces.contains 10 = true ∧ livePCfg.asciiSpaces.contains 32 = true := by decide
+example : inkL livePCfg demo2 = ofS "abr" := by decide
+
+/-- **Same special strings**: class by class (as a re-parse classifies them: comments, CDATA sections, processing
+    instructions — `<?…?>` strings with their `?` —, doctypes), in document order, with their content; the content is
+    changed only if it is whitespace-only (`wsRule_cases`), by the whitespace rule of its context, once (`wsRule_idem`). -/
+theorem same_specials (p : PCfg) (f : Fmt) (hc : contOK p = true) (ds : List Node) :
+    specL (normaliseL p f ds) = specCtxL p (ctxOf p [rootFrame]) ds :=
+  spec_normalise p f hc ds
+
+example : specL (normaliseL livePCfg minimalHtml demo2) =
+    [(.doctype, ofS "html"), (.comment, ofS " "), (.pi, ofS "x y?"), (.pi, ofS "if IE?")] := by decide
+
+/-- the whitespace rule changes a string only if it is whitespace-only, and then into `"\n"` or `" "` -/
+theorem wsRule_only_whitespace (p : PCfg) (pres : Bool) (s : PStr) :
+    wsRule p pres s = s ∨ (s.all (fun c => p.asciiSpaces.contains c) = true ∧ (wsRule p pres s = [10] ∨ wsRule p pres s = [32])) :=
+  wsRule_cases p pres s
+
+
+/-! ## 11. `output_ready` called directly; `Doctype.for_name_and_ids` -/
+
+/-- `string.output_ready(None)`: PREFIX + the string as it stands + SUFFIX — no substitution at all, whatever the
+    class and the parent. -/
+theorem output_ready_none (ci : SCls → ClsInfo) (e : FmtEnv) (r : Bool) (ch : List (Option Bool)) (pn : Option PStr)
+    (c : SCls) (s : PStr) : strOutputReady ci e r ch none pn c s = some ((ci c).pre ++ s ++ (ci c).suf) := rfl
+
+/-- `string.output_ready(arg)` with an argument that resolves (by the string's own flavour, decided up its parent
+    chain) to the formatter `f`: exactly what `decode()` emits for that string under `f`. -/
+theorem output_ready_resolved (ci : SCls → ClsInfo) (e : FmtEnv) (r : Bool) (ch : List (Option Bool)) (a : FmtArg) (f : Fmt)
+    (h : formatterForName e (isXmlSpec r ch) a = .ok f) (pn : Option PStr) (c : SCls) (s : PStr) :
+    strOutputReady ci e r ch (some a) pn c s = some (outputReady ci f pn c s) := by
+  simp only [strOutputReady, isXml_eq_spec, h, outputReady]
+
+/-- an unknown registry key raises `KeyError` for every class — the preformatted ones included, although they ignore the
+    formatter's result -/
+theorem output_ready_keyerror (ci : SCls → ClsInfo) (e : FmtEnv) (r : Bool) (ch : List (Option Bool)) (k : Option PStr)
+    (h : lookupReg (e.registry (isXmlImpl r ch)) k = none) (pn : Option PStr) (c : SCls) (s : PStr) :
+    strOutputReady ci e r ch (some (.name k)) pn c s = none := by
+  simp [strOutputReady, formatterForName, h]
+
+example : strOutputReady liveClsInfo liveEnv false [none, some false] (some (.name (some (ofS "nosuch")))) none .comment (ofS "c") = none ∧
+    strOutputReady liveClsInfo liveEnv false [none, some false] (some (.name (some (ofS "minimal")))) (some (ofS "p")) .navigable (ofS "a<") =
+      some (ofS "a&lt;") ∧
+    strOutputReady liveClsInfo liveEnv false [none] none (some (ofS "p")) .navigable (ofS "a<") = some (ofS "a<") := by decide
+
+/-- A doctype made by `Doctype.for_name_and_ids` renders as `<!DOCTYPE ` + its string + `>\n` under every formatter
+    (class table), and if neither the name nor the identifiers contain `>` it is representable: it comes back as the
+    same doctype (`reparse_roundtrip`, `same_specials`). -/
+theorem doctype_for_ids (f : Fmt) (pn : Option PStr) (name pub sys : Option PStr)
+    (hn : 62 ∉ name.getD []) (hp : 62 ∉ pub.getD []) (hs : 62 ∉ sys.getD []) :
+    outputReady liveClsInfo f pn .doctype (doctypeString name pub sys) =
+        ofS "<!DOCTYPE " ++ doctypeString name pub sys ++ ofS ">\n" ∧
+      okStr .doctype (doctypeString name pub sys) = true := by
+  refine ⟨rfl, ?_⟩
+  have h62 : 62 ∉ doctypeString name pub sys := by
+    unfold doctypeString
+    cases pub <;> cases sys <;> simp_all
+  simpa [okStr] using h62
+
+example : okStr .doctype (doctypeString (some (ofS "html")) none (some (ofS "x.dtd"))) = true :=
+  (doctype_for_ids minimalHtml none (some (ofS "html")) none (some (ofS "x.dtd")) (by decide) (by decide) (by decide)).2
+
+example : doctypeString (some (ofS "html")) (some (ofS "-//W3C//DTD HTML 4.01//EN")) (some (ofS "x.dtd")) =
+    ofS "html PUBLIC \"-//W3C//DTD HTML 4.01//EN\" \"x.dtd\"" ∧
+    doctypeString none none (some (ofS "x.dtd")) = ofS " SYSTEM \"x.dtd\"" ∧ doctypeString (some (ofS "html")) none none = ofS "html" := by
+  decide
+
 
 end BS.Props.C05
